@@ -5,6 +5,7 @@ import CapyV.Driver.C27
 import CapyV.Driver.C22
 import CapyV.Driver.C23
 import CapyV.Driver.Core
+import CapyV.Driver.CoreMem
 import CapyV.Driver.C26
 import CapyV.Driver.C07
 import CapyV.Driver.C12
@@ -32,7 +33,7 @@ def dispatch (line : String) : String :=
   | "C27" :: args => c27 args
   | "C22" :: args => c22 args
   | "C23" :: args => c23 args
-  | "CORE" :: args => core args
+  | "CORE" :: args => coreMem args
   | "C26" :: args => c26 args
   | "C07" :: args => c07 args
   | "C12" :: args => c12 args
